@@ -25,7 +25,7 @@ func init() {
 			"D5 window loops of the dense read paths (ForEach, Bins, Encode, encodeSparsely) cover minIndex…maxIndex inclusive (ToProto/EncodeProto/encodeDensely/Reweight are checked by C09/C06/C16). "+
 			"D6 the window-moving primitives of the dense store as linear forms — shiftCounts copies bins[min−off … max−off] to +shift, resets exactly the vacated slots for either sign of the shift and updates offset −= shift; resetBins zeroes bins[from−off … to−off]; centerCounts stores the new window and shifts by offset + len/2 − (newMin + (newMax−newMin+1)/2); truncating integer division is only applied to widths and lengths. "+
 			"D9 page table of the paginated store — the slice of pages and the index of its first page are written only by the page accessor (resolved by role, with the helpers split off it), by Clear, or into a fresh object; elements of a page obtained from the accessor are touched only on paths that created the page (ensureExists is the constant true) or established by its length that it is not empty (Clear keeps emptied slots: a nil test is not enough); a slot pages[x − first] is computed from the table and its first page index of the same moment (no call whose write set reaches the table on a way between the two reads — the accessor re-bases the table when it grows to the left); and when an element page(P)[x & mask] is touched with P computed from that same x, P is x >> log2 (a division rounds the other way for negative indexes) or the path has compared the page of x with P. "+
-			"SHARED (obligations of other properties that decide clauses this property states too, re-evaluated here under their home rule ids): for DenseStore, SparseStore and BufferedPaginatedStore only — C05-D8 for DenseStore.extendRange (the new window contains the requested range and, on a non-empty store, the old window: bounds are min / max of requested and current). C01-D3 as C04-D7 (rank lookup: first index whose cumulative weight strictly exceeds the rank, buffer sorted first), C02-D2/D3/D4 (merge from any store kind, argument neither written nor captured, cached total and window follow), C14-D2 (Copy defines every field, deep), C15-D1 (Clear covers every written field), C16-D2 (Reweight scales everything held). C13-D3 for the stores' Reweight (a factor ≤ 0 is refused with nothing written: no weightless bins are left behind). C09-D3 for the MergeWithProto loops (every bin of a message is added at its own index). C06-D1 for the store encoders and decoders (writer and reader of each bin layout agree on the width of every field), C06-D2 (every delta read is accumulated), C08-D4 (exactly the announced number of items is read). "+
+			"SHARED (obligations of other properties that decide clauses this property states too, re-evaluated here under their home rule ids): for DenseStore, SparseStore and BufferedPaginatedStore only — C05-D8 for DenseStore.extendRange (the new window contains the requested range and, on a non-empty store, the old window: bounds are min / max of requested and current). C01-D3 as C04-D7 (rank lookup: first index whose cumulative weight strictly exceeds the rank, buffer sorted first), C02-D2/D3/D4 (merge from any store kind, argument neither written nor captured, cached total and window follow), C14-D2 (Copy defines every field, deep), C15-D1 (Clear covers every written field), C16-D2 (Reweight scales everything held). C13-D3 for the stores' Reweight (a factor ≤ 0 is refused with nothing written: no weightless bins are left behind). C14-D6 for the stores (a protobuf message taken from a store shares no memory with it). C09-D3 for the MergeWithProto loops (every bin of a message is added at its own index). C06-D1 for the store encoders and decoders (writer and reader of each bin layout agree on the width of every field), C06-D2 (every delta read is accumulated), C08-D4 (exactly the announced number of items is read). "+
 			"NOT DECIDED: that weights are never lost, duplicated or misattributed by normalize/extendRange/shiftCounts/page()/compact() — value statements about counts.",
 		"one obligation per store × entry point, per fold site, per callback call site, per window loop, per twin path",
 		false, runC04)
@@ -79,6 +79,9 @@ func runC04(c *Ctx) {
 	c.shared(func() { c13Reweight(c, a) }, func(o *Obligation) bool { return notCollapsing(o) && strings.Contains(o.Key, "/store.") })
 	// additions "as bins" also arrive through protobuf messages: the rebuild loops add every bin at its own index
 	c.shared(func() { c09Rebuild(c, a) }, keyMentions("MergeWithProto"))
+	// … and a message taken from a store is a snapshot: it shares no memory with the store (a later addition or a
+	// Clear-and-reuse of the store must not show through a message that is merged afterwards)
+	c.shared(func() { c14Detached(c, "C14-D6") }, keyMentions("Store"))
 	// … and through the binary encoding: the store encoders and decoders agree on the layout of each bin block (width of
 	// every field), every reader accumulates every delta it reads, and reads exactly the announced number of items
 	c.shared(func() { wireGrammarRules(c, a, "C06-D1") }, keyMentions("ddsketch/store."))
